@@ -254,8 +254,8 @@ def _local_names(fn) -> set:
     (not inside nested functions, lambdas, classes or comprehensions), minus those declared global / nonlocal"""
     out, skip = set(), set()
     a = fn.args
-    for x in a.posonlyargs + a.args + a.kwonlyargs + ([a.vararg] if a.vararg else []) + ([a.kwarg] if a.kwarg else []):
-        out.add(x.arg)
+    for x in a.posonlyargs + a.args + a.kwonlyargs:
+        out.add(x.arg)  # (*args / **kwargs are not bound by the executor: they stay opaque names)
     stack = list(fn.body)
     while stack:
         n = stack.pop()
@@ -275,7 +275,7 @@ def _local_names(fn) -> set:
         elif isinstance(n, (ast.Import, ast.ImportFrom)):
             out.update((al.asname or al.name).split('.')[0] for al in n.names)
         stack.extend(ast.iter_child_nodes(n))
-    return out - skip
+    return out - skip - {x.arg for x in (a.vararg, a.kwarg) if x is not None}
 
 
 INTERNED_STRINGS = set()  # string literals encoded as constants of the opaque sort; distinct literals denote distinct values
@@ -1104,10 +1104,14 @@ class Engine:
                 e = SExc('AssertionError')
                 e.line = node.lineno
                 if node.msg is not None and not isinstance(node.msg, ast.Constant):
+                    was = getattr(self, 'in_spec', False)
+                    self.in_spec = True  # (no safety obligations for the message: the path raises in any case)
                     try:
                         self.ev(node.msg, s_bad)  # the message is evaluated when (and only when) the assertion fails
                     except PyRaise as r:
                         e = r.exc
+                    finally:
+                        self.in_spec = was
                 outs.append((s_bad, ('raise', e)))
             if feasible(s_ok.pc):
                 outs.append((s_ok, ('next',)))
@@ -1153,7 +1157,13 @@ class Engine:
             dvals = tuple(self.ev(d, st) for d in node.args.defaults)
             st.env[node.name] = ('localdef', node, dvals)
             return [(st, ('next',))]
-        if isinstance(node, (ast.Import, ast.ImportFrom, ast.Global, ast.Nonlocal)):
+        if isinstance(node, (ast.Import, ast.ImportFrom)):
+            for al in node.names:
+                nm = (al.asname or al.name).split('.')[0]
+                if nm not in st.env:
+                    st.env[nm] = SDotted(nm)  # the imported name is bound (to the opaque module / object of that name)
+            return [(st, ('next',))]
+        if isinstance(node, (ast.Global, ast.Nonlocal)):
             return [(st, ('next',))]
         if isinstance(node, ast.Delete):
             for t in node.targets:
@@ -2461,7 +2471,7 @@ class Engine:
     def ev_JoinedStr(self, node, st):
         if not self.c.strings:
             for v in ast.walk(node):
-                if isinstance(v, ast.FormattedValue) and not getattr(self, 'in_spec', False):
+                if isinstance(v, ast.FormattedValue) and not getattr(self, 'in_spec', False) and any(isinstance(n, (ast.Call, ast.Await, ast.NamedExpr, ast.Subscript)) or (isinstance(n, ast.BinOp) and isinstance(n.op, (ast.Div, ast.FloorDiv, ast.Mod))) for n in ast.walk(v.value)):
                     self.ev(v.value, st)  # the text is opaque, but evaluating a part may call something or raise
             return z3.Const(fresh_name('fstring'), U)
         parts = []
@@ -2782,9 +2792,14 @@ class Engine:
             return alts[0][3]
         raise Fork(node, alts)
 
-    def ev_lenient(self, a, st):
+    def ev_lenient(self, a, st, strict=False):
         if isinstance(a, ast.Starred):
-            return ('*', self.ev(a.value, st))  # the unpacked expression is evaluated even if the callee does not look at it
+            try:
+                return ('*', self.ev(a.value, st))  # the unpacked expression is evaluated even if the callee does not look at it
+            except Undecided:
+                if strict:
+                    raise
+                return ('*', None)  # a contract-supplied model gets the call node and has to deal with the argument list itself
         return self.ev(a, st)
 
     def call_contract(self, cc: Contract, args, kw, st, node):
@@ -2841,7 +2856,7 @@ class Engine:
     def call_builtin(self, name, node, st):
         args = []
         for a_ in node.args:
-            v_ = self.ev_lenient(a_, st)
+            v_ = self.ev_lenient(a_, st, strict=True)
             if isinstance(a_, ast.Starred) and isinstance(v_[1], tuple) and not (v_[1] and isinstance(v_[1][0], str)):
                 args.extend(v_[1])  # f(*(x, y)) with a tuple of known length
             else:
